@@ -4,6 +4,7 @@
 //                   : S
 // over all pairs of valid duplicate-free texts up to a token budget; keys are
 // spelled with and without escapes.
+#include <algorithm>
 #include <memory>
 #include <set>
 
@@ -161,7 +162,76 @@ int main(int argc, char** argv) {
   f4.rule = "keys x^p ESC y^q for p,q in 0..70 and ESC in {\\u0041, \\/, \\n, \\\", \\\\}: (0) target spelled with the escape, source with the plain character (A, /) - must match by decoded value; (1) same escaped spelling on both sides, replace + append; (2) nested merge below the long key";
   static const char* kEsc[5] = {"\\u0041", "\\/", "\\n", "\\\"", "\\\\"};
   static const char* kPlain[5] = {"A", "/", nullptr, nullptr, nullptr};
+  // objects with a dozen members whose names mix lengths below / at / above the word and vector sizes and differ
+  // in their first bytes (the merge looks every source key up in a per-object map of the target's keys)
+  static std::vector<std::string> kpool;
+  if (kpool.empty()) {
+    std::set<std::string> seen;
+    for (unsigned len : {1u, 2u, 3u, 7u, 8u, 9u, 12u, 16u, 17u, 33u}) {
+      std::string base(len, 'm');
+      if (seen.insert(base).second) kpool.push_back(base);
+      for (unsigned pos : {0u, 1u, 7u, 8u, 16u})
+        for (char v : {'!', 'a', 'z', '~'}) {
+          if (pos >= len) continue;
+          std::string k = base;
+          k[pos] = v;
+          if (seen.insert(k).second) kpool.push_back(k);
+        }
+    }
+  }
+  vr::Family f5;
+  f5.name = "LW_wide_mixed_keys";
+  f5.count = (uint64_t)kpool.size() * 8 * 14;
+  f5.group = "LW";
+  f5.chunk = 64;
+  f5.rule = "targets with 12 members named pool[i], pool[i+s], ... (" + std::to_string(kpool.size()) + " names of length 1..33 differing at byte 0,1,7,8,16; 8 strides = insertion orders), each value an object; sources that update one existing member (12 choices: nested merge), add a new one, or do both: the member must be merged in place, nothing duplicated or lost";
   vr::CheckFn check = [&](const vr::Family& f, uint64_t idx, vr::Ctx& ctx) {
+    if (f.name[1] == 'W') {
+      static const unsigned strides[8] = {1, 2, 3, 5, 7, 11, 13, 17};
+      unsigned which = (unsigned)(idx % 14);
+      idx /= 14;
+      unsigned st = strides[idx % 8];
+      size_t i0 = idx / 8;
+      std::vector<size_t> ks;
+      for (unsigned j = 0; j < 12; j++) {
+        size_t k = (i0 + (size_t)j * st) % kpool.size();
+        if (std::find(ks.begin(), ks.end(), k) == ks.end()) ks.push_back(k);
+      }
+      std::string t = "{";
+      for (size_t j = 0; j < ks.size(); j++) t += std::string(j ? "," : "") + "\"" + kpool[ks[j]] + "\":{\"v\":" + std::to_string(j) + ",\"u\":[" + std::to_string(j) + "]}";
+      t += "}";
+      std::string s2;
+      if (which < 12) {
+        if (which >= ks.size()) {
+          ctx.skip();
+          return;
+        }
+        s2 = "{\"" + kpool[ks[which]] + "\":{\"w\":true,\"v\":\"new\"}}";
+      } else if (which == 12)
+        s2 = "{\"brand-new-key\":{\"w\":1}}";
+      else
+        s2 = "{\"brand-new-key\":1,\"" + kpool[ks[ks.size() / 2]] + "\":{\"u\":null},\"" + kpool[ks[0]] + "\":2}";
+      ref::Result rt = ref::parse(t), rs = ref::parse(s2);
+      ctx.eval();
+      ctx.nontriv();
+      std::string desc = "target=" + t.substr(0, 700) + "  source=" + s2;
+      if (ctx.want_sample) ctx.sample(desc.substr(0, 200));
+      if (!rt.ok || !rs.ok || ref::has_dup_keys(rt.v)) {
+        ctx.violation("harness", "harness_generator", desc, "harness error: generated text invalid");
+        return;
+      }
+      ExactBuf tb(t), sb(s2);
+      std::string out = sonic_json::UpdateLazy(sonic_json::StringView(tb.p, tb.n), sonic_json::StringView(sb.p, sb.n));
+      ref::Result r = ref::parse(out);
+      ref::Value exp = mergeL(rt.v, rs.v);
+      if (!r.ok)
+        ctx.violation("lazy_invalid_output", "lazy_invalid_output_wide", desc, "UpdateLazy returned %s which is not valid JSON", out.substr(0, 300).c_str());
+      else if (ref::has_dup_keys(r.v))
+        ctx.violation("lazy_dup_keys", "lazy_dup_keys_wide", desc, "result has duplicate keys: %s", out.substr(0, 600).c_str());
+      else if (!ref::equal(r.v, exp))
+        ctx.violation("lazy_result", "lazy_result_wide", desc, "UpdateLazy returned %s, expected a value equal to %s", out.substr(0, 400).c_str(), ref::show(exp).substr(0, 400).c_str());
+      return;
+    }
     if (f.name[1] == 'K') {
       unsigned mode = (unsigned)(idx % 3);
       idx /= 3;
@@ -233,7 +303,7 @@ int main(int argc, char** argv) {
     if (ref::has_dup_keys(r.v)) ctx.violation("lazy_dup_keys", "lazy_dup_keys", desc, "result %s has duplicate keys", out.c_str());
   };
 
-  std::vector<vr::Family> fams = {f1, f2, f3, f4};
+  std::vector<vr::Family> fams = {f1, f2, f3, f4, f5};
   if (args.replay) return R.replay_one(fams, check);
   const std::string only = args.get("only");
   for (auto& f : fams)
